@@ -50,6 +50,10 @@ type instance struct {
 	Stream     func(ctx context.Context, mask *fieldmaskpb.FieldMask) (any, error)
 	StreamName string
 	Seeds      func() int
+	// Key / Marker (set by wire): the item's identifying field; Marker creates a fresh recognisable item and
+	// returns its key (mode "updates")
+	Key    string
+	Marker func(i int, g *mt.Gen) string
 }
 
 // creader is one trait-level reader; Funcs names the source functions it drives (package.Func), used to
@@ -224,6 +228,10 @@ var creaders = []creader{
 				return electricpb.WrapApi(s).PullModes(ctx, &traits.PullModesRequest{Name: "dev", ReadMask: mask})
 			}
 			inst.Seeds = func() int { return len(inst.Read(nil)) }
+			wire(inst, crud{Key: "id", GenID: true, NewItem: func() proto.Message { return &traits.ElectricMode{} },
+				Create: func(x proto.Message) (proto.Message, error) { return m.CreateMode(x.(*traits.ElectricMode)) },
+				Update: func(x proto.Message) error { _, err := m.UpdateMode(x.(*traits.ElectricMode)); return err },
+				Delete: func(id string) error { return m.DeleteMode(id) }})
 			return inst
 		}},
 	{"hailpb.ModelServer.ListHails", func() proto.Message { return &traits.Hail{} },
@@ -246,6 +254,10 @@ var creaders = []creader{
 				return hailpb.WrapApi(s).PullHails(ctx, &traits.PullHailsRequest{Name: "dev", ReadMask: mask})
 			}
 			inst.Seeds = func() int { return len(inst.Read(nil)) }
+			wire(inst, crud{Key: "id", GenID: true, NewItem: func() proto.Message { return &traits.Hail{} },
+				Create: func(x proto.Message) (proto.Message, error) { return m.CreateHail(x.(*traits.Hail)) },
+				Update: func(x proto.Message) error { _, err := m.UpdateHail(x.(*traits.Hail)); return err },
+				Delete: func(id string) error { _, err := m.DeleteHail(id); return err }})
 			return inst
 		}},
 	{"publicationpb.ModelServer.ListPublications", func() proto.Message { return &traits.Publication{} },
@@ -268,6 +280,10 @@ var creaders = []creader{
 				return publicationpb.WrapApi(s).PullPublications(ctx, &traits.PullPublicationsRequest{Name: "dev", ReadMask: mask})
 			}
 			inst.Seeds = func() int { return len(inst.Read(nil)) }
+			wire(inst, crud{Key: "id", NewItem: func() proto.Message { return &traits.Publication{} },
+				Create: func(x proto.Message) (proto.Message, error) { return m.CreatePublication(x.(*traits.Publication)) },
+				Update: func(x proto.Message) error { _, err := m.UpdatePublication(x.(*traits.Publication).Id, x.(*traits.Publication)); return err },
+				Delete: func(id string) error { _, err := m.DeletePublication(id); return err }})
 			return inst
 		}},
 	{"vendingpb.ModelServer.ListConsumables", func() proto.Message { return &traits.Consumable{} },
@@ -290,6 +306,10 @@ var creaders = []creader{
 				return vendingpb.WrapApi(s).PullConsumables(ctx, &traits.PullConsumablesRequest{Name: "dev", ReadMask: mask})
 			}
 			inst.Seeds = func() int { return len(inst.Read(nil)) }
+			wire(inst, crud{Key: "name", NewItem: func() proto.Message { return &traits.Consumable{} },
+				Create: func(x proto.Message) (proto.Message, error) { return m.CreateConsumable(x.(*traits.Consumable)) },
+				Update: func(x proto.Message) error { _, err := m.UpdateConsumable(x.(*traits.Consumable)); return err },
+				Delete: func(id string) error { _, err := m.DeleteConsumable(id); return err }})
 			return inst
 		}},
 	{"vendingpb.ModelServer.ListInventory", func() proto.Message { return &traits.Consumable_Stock{} },
@@ -312,6 +332,10 @@ var creaders = []creader{
 				return vendingpb.WrapApi(s).PullInventory(ctx, &traits.PullInventoryRequest{Name: "dev", ReadMask: mask})
 			}
 			inst.Seeds = func() int { return len(inst.Read(nil)) }
+			wire(inst, crud{Key: "consumable", NewItem: func() proto.Message { return &traits.Consumable_Stock{} },
+				Create: func(x proto.Message) (proto.Message, error) { return m.CreateStock(x.(*traits.Consumable_Stock)) },
+				Update: func(x proto.Message) error { _, err := m.UpdateStock(x.(*traits.Consumable_Stock)); return err },
+				Delete: func(id string) error { _, err := m.DeleteStock(id); return err }})
 			return inst
 		}},
 	{"parentpb.ModelServer.ListChildren", func() proto.Message { return &traits.Child{} },
@@ -335,6 +359,10 @@ var creaders = []creader{
 				return parentpb.WrapApi(s).PullChildren(ctx, &traits.PullChildrenRequest{Name: "dev", ReadMask: mask})
 			}
 			inst.Seeds = func() int { return len(inst.Read(nil)) }
+			wire(inst, crud{Key: "name", NewItem: func() proto.Message { return &traits.Child{} },
+				Create: func(x proto.Message) (proto.Message, error) { m.AddChild(x.(*traits.Child)); return x, nil },
+				Update: func(x proto.Message) error { m.AddChildTrait(x.(*traits.Child).Name, "smartcore.verif.Extra"); return nil },
+				Delete: func(id string) error { _, err := m.RemoveChildByName(id); return err }})
 			return inst
 		}},
 	{"bookingpb.ModelServer.ListBookings", func() proto.Message { return &traits.Booking{} },
@@ -357,6 +385,9 @@ var creaders = []creader{
 				return bookingpb.WrapApi(s).PullBookings(ctx, &traits.ListBookingsRequest{Name: "dev", ReadMask: mask})
 			}
 			inst.Seeds = func() int { return len(inst.Read(nil)) }
+			wire(inst, crud{Key: "id", NewItem: func() proto.Message { return &traits.Booking{} },
+				Create: func(x proto.Message) (proto.Message, error) { return m.CreateBooking(x.(*traits.Booking)) },
+				Update: func(x proto.Message) error { _, err := m.UpdateBooking(x.(*traits.Booking)); return err }})
 			return inst
 		}},
 	{"wastepb.ModelServer.ListWasteRecords", func() proto.Message { return &traits.WasteRecord{} },
@@ -379,6 +410,8 @@ var creaders = []creader{
 				return wastepb.WrapApi(s).PullWasteRecords(ctx, &traits.PullWasteRecordsRequest{Name: "dev", ReadMask: mask})
 			}
 			inst.Seeds = func() int { n := m.GetWasteRecordCount(); if n > 50 { n = 50 }; return n }
+			wire(inst, crud{Key: "id", MarkerOnly: true, NewItem: func() proto.Message { return &traits.WasteRecord{} },
+				Create: func(x proto.Message) (proto.Message, error) { return m.AddWasteRecord(x.(*traits.WasteRecord)) }})
 			return inst
 		}},
 }
@@ -413,6 +446,7 @@ type cout struct {
 	Roles    []string
 	Mutated  string // a later unmasked read differs / an earlier result changed
 	Stream   string // pull: missing or unexpected events
+	Dropped  int    // updates: changes the masked stream left out because both projections were equal
 }
 
 func canonAll(ms []proto.Message) string {
@@ -443,6 +477,10 @@ func (c ccase) run() cout {
 		fm := c.Mask.FM()
 		if c.Mode == "pull" {
 			c.runPull(g, inst, &out)
+			return
+		}
+		if c.Mode == "updates" {
+			c.runUpdates(g, inst, &out)
 			return
 		}
 		if c.Mode == "seeds" {
@@ -627,6 +665,9 @@ func (c ccase) monitor(mon *lib.Monitor, out cout) {
 	if c.Mode == "seeds" {
 		site = "C06/" + r.Build(&mt.Gen{R: lib.NewRand(1)}).StreamName
 	}
+	if c.Mode == "updates" {
+		site = "C06/" + r.Build(&mt.Gen{R: lib.NewRand(1)}).StreamName + "/updates"
+	}
 	md := r.Item().ProtoReflect().Descriptor()
 	sensible := true
 	for _, p := range c.Mask.Paths {
@@ -714,6 +755,17 @@ func runComposed(cases []ccase, tie *lib.Tie, mon *lib.Monitor, drv *lib.Driver)
 		tie.Record(c.key(), nontrivial, c, model, code)
 		tie.Count("reader:" + c.Reader)
 		tie.Count("mode:" + c.Mode)
+		if c.Mode == "updates" {
+			tie.Count("updates@" + c.Reader)
+			for _, r := range out.Roles {
+				if i := strings.LastIndexByte(r, '-'); i > 0 && !strings.Contains(r, "marker") {
+					tie.Count("update-value:" + r[i+1:])
+				}
+			}
+			if out.Dropped > 0 {
+				tie.Count("updates:dropped-under-mask(equal projections)")
+			}
+		}
 		nonEmptyRaw := false
 		for _, m := range out.Raw {
 			nonEmptyRaw = nonEmptyRaw || (m != nil && nonEmpty(m))
@@ -779,6 +831,14 @@ func composedCases(g *mt.Gen, perReader int, pullCases int) []ccase {
 			for i, m := range ms {
 				if i < 2 || i%3 == int(g.R.Intn(3)) || len(m.Paths) > 1 {
 					out = append(out, ccase{Reader: r.Name, Mode: "seeds", SetupSeed: seed(), Mask: m})
+				}
+			}
+		}
+		if probe.Stream != nil && probe.Marker != nil {
+			// ... and its UPDATES: changes of stored items while both an unmasked and a masked stream are open
+			for i, m := range ms {
+				if i < 2 || i%4 == int(g.R.Intn(4)) || len(m.Paths) > 1 {
+					out = append(out, ccase{Reader: r.Name, Mode: "updates", SetupSeed: seed(), Mask: m, Writes: 2 + g.R.Intn(3)})
 				}
 			}
 		}
